@@ -750,3 +750,8 @@ silent("c07-s-op-reduce-copies-defaults", "C07", OP,
        "        return apply, (type(self), (), self.defaults)", "        params = dict(self.defaults)\n        return apply, (type(self), (), params)")
 fire("c07-op-reduce-drops-falsy-params", "C07", OP,
      "        return apply, (type(self), (), self.defaults)", "        params = {k: v for k, v in self.defaults.items() if v}\n        return apply, (type(self), (), params)", "R07.6", "Op.__reduce__")
+
+silent("c07-s-hash-via-local", "C07", TERMS,
+       "    def __hash__(self):\n        return id(self)\n", "    def __hash__(self):\n        ident = id(self)\n        return ident\n")
+silent("c07-s-reduce-via-locals", "C07", TERMS,
+       "        return type(self).__origin__, self._ast_values\n", "        cls = type(self).__origin__\n        args = self._ast_values\n        return cls, args\n")
